@@ -172,14 +172,15 @@ func VerifHarness_C16_independent() {
 		verifRoundTripLogs(pa, ca, verifFixedLogs(b, b == 1), "C16.A")
 		verifRoundTripMetrics(pa, ca, verifFixedMetrics(b, b == 1), "C16.A")
 	}
+	// everything reachable from A and from every package-level variable is watched from here on: B is created
+	// (with symbolic options) and driven under the watch
+	rt.WatchBegin("pair A", pa)
+	rt.WatchBegin("pair A", ca)
+	rt.WatchGlobals("github.com/open-telemetry/otel-arrow")
 	opt := rt.Int("optionsOfB")
 	rt.Assume(opt >= 0)
 	rt.Assume(opt <= 3)
 	pb, cb := verifProducerOpt(opt), verifConsumer()
-	// first touch of B's code paths happened through A already (lazy package initialisation is done)
-	rt.WatchBegin("pair A", pa)
-	rt.WatchBegin("pair A", ca)
-	rt.WatchGlobals("github.com/open-telemetry/otel-arrow")
 	for b := 0; b < 2; b++ {
 		rich := rt.Bool("rich")
 		verifRoundTrip(pb, cb, verifFixedTraces(10+b, rich), "C16.B")
@@ -187,7 +188,8 @@ func VerifHarness_C16_independent() {
 		verifRoundTripMetrics(pb, cb, verifFixedMetrics(10+b, rich), "C16.B")
 	}
 	rt.WatchReport()
-	rt.Assert(rt.WatchHits() == 0, "C16.independent.no_write_to_shared_state")
+	// race-level: EVERY store into the watched set counts, also one that writes the value already there
+	rt.Assert(rt.WatchHitsTag("pair A") == 0 && rt.WatchHitsTag("global") == 0, "C16.independent.no_write_to_shared_state")
 	rt.WatchEnd()
 	// and A is still usable and correct after B ran
 	verifRoundTrip(pa, ca, verifFixedTraces(3, true), "C16.A_after_B")
